@@ -352,6 +352,28 @@ def ranges(chk):
                            'a range whose bounds lie in one half makes next() panic before yielding: %s' % (o.val,), fn_site(I, fn_))
                 if not pans:
                     chk.ob('no-panic-in-next', '%s::next never panics' % tagc, True, '%d paths' % len(outs), fn_site(I, fn_))
+                # ---- provided Iterator methods that the impl overrides (nth, last, ...): core defines them through next(), which never
+                # panics here and only yields elements of the range - an override must keep both
+                for im in chk.facts['impls']:
+                    if im['trait'] != 'core::iter::Iterator' or im['selfs'].split('<')[0] != RT:
+                        continue
+                    for it in im['items']:
+                        if it['name'] in ('next', 'Item') or not it['kind'].startswith('Fn'):
+                            continue
+                        ofn = it['path']
+                        f_ = I.fn.get(ofn)
+                        if f_ is None:
+                            chk.unproven('iterator-overrides', '%s overrides %s' % (tagc, it['name']), 'body not found')
+                            continue
+                        st = State()
+                        rv, sbits, ebits = mkrange(st)
+                        ref = arg_obj(st, 'self', rv)
+                        by_ref = f_['locals'][1].get('k') == 'ref'
+                        extra = [I.sym_value(I.subst_ty(f_['locals'][i + 1], {'S': S}), 'arg%d' % i, st) for i in range(1, f_['argc'])]
+                        outs2 = run_case(chk, ofn, [ref if by_ref else rv] + extra, st, {'S': S})
+                        pans2 = [o for o in outs2 if o.kind == 'panic']
+                        chk.ob('iterator-overrides', '%s: the overridden `%s` never panics (as the default built on next())' % (tagc, it['name']), bool(outs2) and not pans2,
+                               'panic paths %r' % ([o.val for o in pans2][:3],), fn_site(I, ofn))
                 rets = [o for o in outs if o.kind == 'ret']
                 ok = bool(rets)
                 n_some = 0
